@@ -482,36 +482,181 @@ def presented(n):
     return dict(zip(list(n.attributes), n._etree_obj.attrib.values()))
 
 
+# A node recipe is an XML text (the root element is the node) or
+# {"attrs": [[ns, name, value], ...], "route": "parse" | "parse-prefixed" | "api" | "api-ns" | "moved" | "moved-ns", "under": D}
+# - the same attribute set reaches a node by different routes, which differ in how lxml stores the keys
+# (`k` vs `{d}k` under the default namespace d): parsed with unprefixed / prefixed attributes below
+# <r xmlns=D>, created detached (with / without a node namespace), created and then moved under <r xmlns=D>.
+def build_recipe(desc):
+    if isinstance(desc, str):
+        n = Document(desc).root
+        return n, [n, n.document]
+    attrs, route, under = desc["attrs"], desc["route"], desc.get("under") or ""
+    if route.startswith("parse"):
+        decl = (' xmlns="%s"' % under if under else "") + ' xmlns:pd="d" xmlns:pe="e"'
+        parts, seen = [], set()
+        for ns, name, value in attrs:
+            # an attribute in the default namespace can only be written with a prefix; the unprefixed one is
+            # the attribute without namespace (delb presents both under the default namespace)
+            rendered = name if not ns or (ns == under and route == "parse") else "p%s:%s" % (ns, name)
+            if rendered not in seen:
+                seen.add(rendered)
+                parts.append(' %s="%s"' % (rendered, value))
+        n = Document("<r%s><n%s/></r>" % (decl, "".join(parts))).root[0]
+        return n, [n, n.document]
+    d = {((ns, name) if ns else name): value for ns, name, value in attrs}
+    n = new_tag_node("n", attributes=d, namespace=(under or None) if route.endswith("-ns") else None)
+    keep = [n]
+    if route.startswith("moved"):
+        r = Document('<r xmlns="%s"/>' % under if under else "<r/>").root
+        r.append_children(n)
+        keep += [r, r.document]
+    return n, keep
+
+
+ROUTES = ["parse", "parse-prefixed", "api", "api-ns", "moved", "moved-ns"]
+
+
+def gen_eq_recipes(rng):
+    """two recipes: the same attribute set by two routes (often), or one attribute changed"""
+    attrs = []
+    for name in rng.sample(["k", "j", "h"], rng.randint(0, 3)):
+        attrs.append([rng.choice(["", "", "d", "d", "e"]), name, rng.choice("vw")])
+    other = [list(a) for a in attrs]
+    r = rng.random()
+    if other and r < 0.15:
+        rng.choice(other)[2] = "x"
+    elif other and r < 0.25:
+        other.pop(rng.randrange(len(other)))
+    elif other and r < 0.35:
+        rng.choice(other)[0] = rng.choice(["", "d", "e"])
+    ua = rng.choice(["", "d", "d", "e"])
+    ub = ua if rng.random() < 0.65 else rng.choice(["", "d", "e"])
+    return ({"attrs": attrs, "route": rng.choice(ROUTES), "under": ua},
+            {"attrs": other, "route": rng.choice(ROUTES), "under": ub})
+
+
+def _r(attrs, route, under):
+    return {"attrs": attrs, "route": route, "under": under}
+
+
+_KV = [["d", "k", "v"], ["d", "l", "w"]]
+REGRESSION_EQ += [
+    # one dictionary {(d,k): v, (d,l): w} under the default namespace d, stored as k/l or as {d}k/{d}l
+    (_r(_KV, "parse", "d"), _r(_KV, "moved-ns", "d")), (_r(_KV, "parse", "d"), _r(_KV, "parse-prefixed", "d")),
+    (_r(_KV, "moved", "d"), _r(_KV, "parse", "d")), (_r(_KV, "moved-ns", "d"), _r(_KV, "parse-prefixed", "d")),
+    (_r([["", "k", "v"]], "parse", "d"), _r([["d", "k", "v"]], "moved-ns", "d")),
+    ('<x xmlns="d" k="v"/>', '<x xmlns="d" xmlns:p="d" p:k="v"/>'), ('<x xmlns="d" xmlns:p="d" p:k="v"/>', '<x xmlns="d" k="v"/>'),
+    ('<x xmlns="d" k="v"/>', '<x xmlns="d" xmlns:p="d" p:k="w"/>'), ('<x xmlns="d" k="v" j="w"/>', '<x xmlns="d" xmlns:p="d" p:k="v"/>'),
+    # before the move / different default namespaces / no default namespace
+    (_r(_KV, "parse", "d"), _r(_KV, "api-ns", "d")), (_r(_KV, "api", ""), _r(_KV, "moved", "d")),
+    (_r(_KV, "parse-prefixed", "e"), _r(_KV, "parse", "d")), (_r(_KV, "parse-prefixed", ""), _r(_KV, "api", "")),
+    (_r([["", "k", "v"]], "parse", ""), _r([["", "k", "v"]], "moved", "d")), (_r([["e", "k", "v"]], "parse-prefixed", "d"), _r([["e", "k", "v"]], "api", "")),
+    (_r([], "api", ""), _r([], "parse", "d")), (_r(_KV, "parse", "d"), _r(_KV[:1], "moved-ns", "d")),
+]
+
+
+def spec_key(node, key):
+    """the dictionary key an accessor denotes on `node` (AttrModel.acc_key): Clark notation or local name
+    (-> the node's namespace), (ns | None, name); no namespace = the default namespace in scope"""
+    if isinstance(key, str):
+        ns, name = (key[1:].split("}", 1) if key.startswith("{") else (None, key))
+    else:
+        ns, name = key
+    ns = (node.namespace or "") if ns is None else ns
+    return ((node._etree_obj.nsmap.get(None) or "") if ns == "" else ns, name)
+
+
+def spec_eq_mapping(node, mapping):
+    """`collection == mapping` for a plain mapping whose keys are accessors of the collection's node"""
+    mine = presented(node)
+    keys = [spec_key(node, k) for k in mapping]
+    if len(set(keys)) != len(keys):
+        # two keys of the mapping denote one entry of the collection (("", k) and (d, k) under the default
+        # namespace d): not a pair of dictionaries the property speaks about -> no verdict demanded
+        return "skip"
+    return (len(mapping) == len(node._etree_obj.attrib)
+            and all(k in mine and mine[k] == v for k, v in zip(keys, mapping.values())))
+
+
+def eq_forms(a, b):
+    """the ways of asking whether two collections are equal: (label, question, negated, expected or None = the
+    verdict on the two presented dictionaries, decided in Coq)"""
+    pb, pa = presented(b), presented(a)
+    try:
+        sb = b.attributes.as_dict_with_strings()
+    except Exception as e:  # noqa: BLE001  (reported as the answer of the forms that need it)
+        err = e
+
+        def boom():
+            raise err
+        return [("b.as_dict_with_strings()", boom, False, None)]
+    return [("a == b", lambda: a.attributes == b.attributes, False, None),
+            ("b == a", lambda: b.attributes == a.attributes, False, None),
+            ("a != b", lambda: a.attributes != b.attributes, True, None),
+            ("b != a", lambda: b.attributes != a.attributes, True, None),
+            ("a == dict(b)", lambda: a.attributes == pb, False, spec_eq_mapping(a, pb)),
+            ("dict(b) == a", lambda: pb == a.attributes, False, spec_eq_mapping(a, pb)),
+            ("b == dict(a)", lambda: b.attributes == pa, False, spec_eq_mapping(b, pa)),
+            ("a != dict(b)", lambda: a.attributes != pb, True, spec_eq_mapping(a, pb)),
+            ("a == b.as_dict_with_strings()", lambda: a.attributes == sb, False, spec_eq_mapping(a, sb)),
+            ("b.as_dict_with_strings() == a", lambda: sb == a.attributes, False, spec_eq_mapping(a, sb))]
+
+
 def check_eq(ctx, pairs):
     recs = []
     with no_gc():
         for x1, x2 in pairs:
-            a, b = Document(x1).root, Document(x2).root
-            inits = (init_of(a), init_of(b))
             try:
-                r = a.attributes == b.attributes
-                ans = [1, int(r)] if isinstance(r, bool) else [7, 11]
-            except Exception as e:  # noqa: BLE001
-                ans = enc_exc(e)
-            recs.append((x1, x2, inits, ans))
-    vals = ctx.coq_eval(PFX + "eq", REQ, ["eq_obs %s %s" % (c_init(i[0], "init_state"), c_init(i[1], "init_state"))
-                                        for _, _, i, _ in recs], chunk=150)
-    for (x1, x2, inits, ans), val in zip(recs, vals):
-        case = {"eq": [x1, x2]}
-        ctx.count(1, "eq-pairs")
-        if val is None or len(val) < 4:
+                (a, ka), (b, kb) = build_recipe(x1), build_recipe(x2)
+            except Exception as e:  # noqa: BLE001  (a recipe lxml or delb refuses: not a case)
+                tally(ctx, "eq-recipe-refused/" + type(e).__name__)
+                continue
+            inits = (init_of(a), init_of(b))
+            answers = []
+            for label, f, neg, exp in eq_forms(a, b):
+                try:
+                    r = f()
+                    ans = [1, int(r)] if isinstance(r, bool) else [7, 11]
+                except Exception as e:  # noqa: BLE001
+                    ans = enc_exc(e)
+                answers.append((label, ans, neg, exp))
+            recs.append((x1, x2, inits, answers))
+    terms = []
+    for _, _, i, _ in recs:
+        terms.append("eq_obs %s %s" % (c_init(i[0], "init_state"), c_init(i[1], "init_state")))
+        terms.append("eq_obs %s %s" % (c_init(i[1], "init_state"), c_init(i[0], "init_state")))
+    vals = ctx.coq_eval(PFX + "eq", REQ, terms, chunk=150)
+    for n, (x1, x2, inits, answers) in enumerate(recs):
+        case = {"eq": [x1, x2], "stores": [inits[0][2], inits[1][2]], "default_namespaces": [inits[0][0], inits[1][0]]}
+        ctx.count(len(answers), "eq-comparisons")
+        tally(ctx, "eq-pairs")
+        val, rval = vals[2 * n], vals[2 * n + 1]
+        if val is None or rval is None or len(val) < 4 or len(rval) < 4:
             ctx.mismatch("attrs_eq vs TagAttributes.__eq__", {"case": case, "problem": "coqc failed on the case file"})
             continue
         model, (deq, same_dns, wf) = val[:-3], val[-3:]
-        if x1 != x2 and ans == [1, 1]:
-            ctx.nontrivial_case(("eq", x1, x2))
-        if model != ans:
-            ctx.mismatch("attrs_eq vs TagAttributes.__eq__", {"case": case, "impl": ans, "model": model})
-        if ans != [1, deq]:
-            cls = "double-entry" if wf == 0 else None
-            tally(ctx, "outcome:eq-fails/" + str(cls))
-            ctx.fail("== answers %r but equality of the presented dictionaries is %r" % (ans, bool(deq)),
-                     dict(case, cls=cls, impl_answer=ans), classify)
+        rmodel = rval[:-3]
+        if x1 != x2 and answers[0][1] == [1, 1]:
+            ctx.nontrivial_case(("eq", json.dumps(x1), json.dumps(x2)))
+        if sorted(k for k, _ in inits[0][2]) != sorted(k for k, _ in inits[1][2]) and deq == 1:
+            tally(ctx, "eq-pairs/equal-with-different-store-keys")
+        if answers[0][0] == "a == b" and model != answers[0][1]:
+            ctx.mismatch("attrs_eq vs TagAttributes.__eq__", {"case": case, "impl": answers[0][1], "model": model})
+        if len(answers) > 1 and rmodel != answers[1][1]:
+            ctx.mismatch("attrs_eq vs TagAttributes.__eq__", {"case": case, "order": "b == a", "impl": answers[1][1], "model": rmodel})
+        for label, ans, neg, exp in answers:
+            if exp == "skip":
+                tally(ctx, "eq-mapping-with-aliasing-keys (no verdict)")
+                continue
+            want = deq if exp is None else int(exp)
+            if ans != [1, want ^ 1 if neg else want]:
+                cls = "double-entry" if wf == 0 else None
+                tally(ctx, "outcome:eq-fails/" + str(cls))
+                ctx.fail("`%s` answers %r but equality of the %s is %r"
+                         % (label, ans, "presented dictionaries" if exp is None else "collection with that mapping (keys read as accessors)", bool(want)),
+                         dict(case, cls=cls, form=label, impl_answer=ans), classify)
+                break
 
 
 # ------------------------------------------------------------------------------------------------ driver
@@ -571,7 +716,8 @@ def run(ctx, args):
         evaluate(ctx, recs, witness_fails)
         sys.stderr.write("c11: %d sequences evaluated in Coq in %.1f s (%d to go)\n" % (len(recs), time.time() - t0, len(todo)))
         recs = []
-    check_eq(ctx, REGRESSION_EQ + [(gen_eq_xml(ctx.rng), gen_eq_xml(ctx.rng)) for _ in range(n_eq)])
+    check_eq(ctx, REGRESSION_EQ + [(gen_eq_xml(ctx.rng), gen_eq_xml(ctx.rng)) for _ in range(n_eq // 3)]
+             + [gen_eq_recipes(ctx.rng) for _ in range(n_eq - n_eq // 3)])
     return ctx.finish(
         rule="operation sequences of <= 30 steps (get/set/del/contains/pop/update/iter/len through the mapping, node "
              "subscripts incl. slice deletion, value/local_name/namespace through previously fetched Attribute objects) on "
@@ -581,7 +727,12 @@ def run(ctx, args):
              "finding witnesses and hand-written sequences, then random sequences in mode 'free' (uniform) and 'guarded' "
              "(avoids the classes of the open findings so that whole runs stay inside the theorem's domain). evaluations = "
              "steps (each compared with the Gallina model and with the dictionary specification, both evaluated in Coq) "
-             "+ pairs of parsed nodes for ==. Non-trivial = a sequence that uses a held Attribute object after the "
+             "+ comparisons of pairs of nodes: the same or a one-point-mutated attribute set reaching two nodes by "
+             "different routes (parsed with unprefixed / prefixed attributes, created detached with / without node "
+             "namespace, created and moved under <r xmlns=D>; equal and different default namespaces, so that equal "
+             "dictionaries are stored under different lxml keys `k` / `{d}k`), asked as a == b, b == a, !=, against "
+             "dict(presented items) and as_dict_with_strings() in both argument orders; verdict = equality of the "
+             "presented dictionaries decided in Coq (dict_eqb), for plain mappings with their keys read as accessors. Non-trivial = a sequence that uses a held Attribute object after the "
              "mapping was mutated, or a pair of different documents that compare equal; distinct by (kind, ops) / by the "
              "two documents.",
         replay_open=replay_open)
